@@ -132,7 +132,7 @@ PROPS = {
             [rnd("both", "iter", 40000, 60, exclude=NOT_ITERMUT, boost="itermut:2")]),
     ),
     "C10": dict(
-        theorems=None, mode="faults", impl_search=pqv_bign.hash_fuse_search,
+        theorems=None, mode="faults", impl_search=pqv_bign.chain(pqv_bign.hash_fuse_search, pqv_bign.drops_search),
         gens=tiers(
             [rnd("both", "fuse", 3000, 50)],
             [rnd("both", "fuse", 30000, 60)]),
@@ -153,8 +153,9 @@ PROPS = {
              # items whose Hash is coarser than their Eq: the element addressed is decided by Eq
              rnd("both", "core", 1000, 60, hashmode=1, boost="peekmut:2,getmut:5,get:3,chg:3,chgby:3"),
              rnd("both", "iter", 1500, 50, exclude=NOT_ITERMUT),
-             rnd("both", "bulk", 1000, 50, exclude="serde,deser,eq,extend,fromiter")],
-            [rnd("both", "all", 30000, 80, exclude="extend,fromiter")]),
+             rnd("both", "bulk", 1000, 50, exclude="serde,deser,eq,extend,fromiter"),
+             pygen("boundary_items", 8)],
+            [rnd("both", "all", 30000, 80, exclude="extend,fromiter"), pygen("boundary_items", 11)]),
     ),
     "C13": dict(
         theorems=None, drop=["t", "hq"],
@@ -182,7 +183,7 @@ PROPS = {
             [rnd("both", "bulk", 30000, 80, boost="serde:6,deser:6"), pygen("big_serde", 4)]),
     ),
     "C16": dict(
-        theorems=None, impl_search=pqv_bign.huge("both", "reuse"), drop=["t"],
+        theorems=None, impl_search=pqv_bign.chain(pqv_bign.huge("both", "reuse"), pqv_bign.drops_search), drop=["t"],
         gens=tiers(
             [rnd("both", "iter", 4000, 50, exclude="itermut,iter,intoiter,sortediter", boost="drain:6,clear:20"),
              # large capacities / large queues: clear and drain must not depend on them
@@ -201,8 +202,8 @@ PROPS = {
     "C18": dict(
         theorems=None, drop=["t", "hq"], same_seed=True,
         gens=tiers(
-            [rnd("both", "all", 1000, 60, hashmode=m) for m in (0, 1, 2, 3)],
-            [rnd("both", "all", 8000, 80, hashmode=m) for m in (0, 1, 2, 3)]),
+            [rnd("both", "all", 1000, 60, hashmode=m) for m in (0, 1, 2, 3, 4)],
+            [rnd("both", "all", 8000, 80, hashmode=m) for m in (0, 1, 2, 3, 4)]),
     ),
 }
 
